@@ -552,3 +552,76 @@ def pair_family(tier='quick'):
                     body = o.replace('@', i)
                 progs.append(PAIR_PRE + 'try { ' + kw.replace('@', body) + ' } catch (e) { print("top", e) } print("n", n);')
     return list(dict.fromkeys(progs))
+
+
+# ------------------------------------------------------------------------------------------------
+# place (C04): constructs whose compilation depends on binding placement, const caching, loop hoisting, fused branches
+# ------------------------------------------------------------------------------------------------
+PLACE_VALS = ['0', '-0', '1', '2', 'NaN', 'undefined', 'null', '"1"', '"a"', '1n', 'true', '2147483647', '0.5',
+              '({valueOf(){print("vo");return 1}})', '({toString(){print("ts");return "2"}})', 'Infinity']
+PLACE_CMP = ['<', '<=', '>', '>=', '==', '!=', '===', '!==']
+
+
+def place_family(tier='quick'):
+    progs = []
+    vals = PLACE_VALS if tier == 'thorough' else PLACE_VALS[:2] + PLACE_VALS[3:11] + PLACE_VALS[13:14]
+    # (1) comparisons in branch positions (fused compare-and-branch), operands in registers / environments / globals / literals
+    forms = ['if (A OP B) print("t"); else print("f");', 'while (A OP B) { print("w"); break; }', 'var n = 0; do { print("d"); } while (A OP B && n++ < 1);',
+             'for (; A OP B;) { print("fo"); break; }', 'print(A OP B ? 1 : 2);', 'if (!(A OP B)) print("nt"); else print("nf");',
+             'if (A OP B && B OP A) print("tt"); else print("ff");', 'if (A OP B || print("rhs")) print("o");']
+    for op in PLACE_CMP:
+        for fi, form in enumerate(forms):
+            for a in vals:
+                for b in vals:
+                    if tier == 'quick' and fi >= 5 and (vals.index(a) + vals.index(b)) % 3:
+                        continue
+                    body = form.replace('OP', op)
+                    progs.append(f'(function(){{ let a = {a}, b = {b}; try {{ ' + body.replace('A', 'a').replace('B', 'b') + ' } catch (e) { print("E", e.name) } })()')
+                    progs.append(f'(function(){{ let a = {a}, b = {b}; let f = () => [a, b]; try {{ ' + body.replace('A', 'a').replace('B', 'b') + ' } catch (e) { print("E", e.name) } })()')
+                    if fi < 5:
+                        progs.append(f'var a = {a}, b = {b}; try {{ ' + body.replace('A', 'a').replace('B', 'b') + ' } catch (e) { print("E", e.name) }')
+                        progs.append(f'(function(){{ let a = {a}; try {{ ' + body.replace('A', 'a').replace('B', f'({b})') + ' } catch (e) { print("E", e.name) } })()')
+                        progs.append(f'(function(){{ const a = {a}; let g = () => a; let b = {b}; try {{ ' + body.replace('A', 'a').replace('B', 'b') + ' } catch (e) { print("E", e.name) } })()')
+    # (2) loop conditions whose operand changes (or has side effects) during the loop: hoisting must not be observable
+    nforms = [('let n = 3;', 'n', ['n--;', 'n = 1;', '']), ('let n = 3; let dec = () => { n-- };', 'n', ['dec();', 'n = 1;', '']),
+              ('var o = {n: 3};', 'o.n', ['o.n--;', 'o = {n: 1};', '']), ('var arr = [1, 2, 3];', 'arr.length', ['arr.pop();', 'arr.length = 1;', 'arr = [];', '']),
+              ('const n = 3;', 'n', ['']), ('let n = {valueOf(){ print("vo"); return 2 }};', 'n', ['', 'n = 1;']),
+              ('let n = "3";', 'n', ['n = "1";', '']), ('let n = 3n;', 'n', ['n--;', '']), ('let n; n = 3;', 'n', ['n--;']),
+              ('var n = 3; function dec(){ n-- }', 'n', ['dec();', 'eval("n = 1");', ''])]
+    loops = ['for (let i = 0; i < N; i++) { c++; print(i); BODY }', 'for (let i = 0; N > i; i++) { c++; BODY }', 'let i = 0; while (i < N) { i++; c++; BODY }',
+             'let i = 0; do { i++; c++; BODY } while (i < N);', 'for (let i = 5; i >= N; i--) { c++; BODY if (c > 8) break; }',
+             'for (let i = 0; i < N; i++) { c++; let cl = () => i; BODY }', 'for (var i = 0; i <= N; i++) { c++; BODY if (c > 8) break; }',
+             'for (let i = 0, m = N; i < m; i++) { c++; BODY }', 'L: for (let i = 0; i < N; i++) { for (let j = 0; j < N; j++) { c++; BODY if (c > 12) break L; } }']
+    for decl, nexpr, bodies in nforms:
+        for body in bodies:
+            for loop in loops:
+                src = loop.replace('N', nexpr).replace('BODY', body)
+                progs.append(f'(function(){{ var c = 0; {decl} try {{ {src} }} catch (e) {{ print("E", e.name) }} print("c", c); }})()')
+                progs.append(f'var c = 0; {decl} try {{ {src} }} catch (e) {{ print("E", e.name) }} print("c", c);')
+    # (3) const / let placement, caching and TDZ
+    decls = ['const K = 1;', 'let K = 1;', 'var K = 1;', 'const K = {v: 1};', 'const K = print("init") || 5;', 'class K { static v = 1 }', 'function K() { return 1 }']
+    uses = ['print(typeof K, K === K);', 'function g() { return typeof K === "function" ? 1 : K } print(g(), g());', 'try { K = 2 } catch (e) { print("E", e.name) } print(typeof K);',
+            'try { K++ } catch (e) { print("E", e.name) } print(typeof K);', '{ let K = 9; print(K); } print(typeof K);', 'for (let i = 0; i < 2; i++) { print(typeof K); }',
+            'var fs = []; for (let i = 0; i < 2; i++) fs.push(() => K); print(fs.map(f => typeof f()).join());', 'with ({K: 7}) { print(K); }', 'print(eval("typeof K"));',
+            'switch (1) { case 0: let q = 7; case 1: try { print(q) } catch (e) { print("E", e.name) } }',
+            'switch (1) { case 0: const q = 7; case 1: try { print(q) } catch (e) { print("E", e.name) } }',
+            'for (var sw = 0; sw < 2; sw++) switch (sw) { case 1: try { print(q, r()) } catch (e) { print("E", e.name) } break; case 0: const q = K; let r = () => q; print(q); }',
+            'switch (0) { case 0: try { q = 1 } catch (e) { print("E", e.name) } case 1: let q = 2; print(q); }', 'try { print(typeof K, (() => K)()) } catch (e) { print("E", e.name) }',
+            'label: { if (typeof K) break label; }  print(K === undefined);', 'try { [K] = [3] } catch (e) { print("E", e.name) } print(typeof K);']
+    wraps = ['@', '(function(){ @ })();', '(function(){ "use strict"; @ })();', '{ @ }', 'if (true) { @ }', 'for (var once = 0; once < 1; once++) { @ }',
+             'try { @ } finally { print("fin") }', '(() => { @ })();', '(function*(){ @ })().next();', 'switch (0) { default: @ }',
+             '(function(p = (() => typeof K)()) { print(p); @ })();', 'class W { static { @ } }']
+    for d in decls:
+        for u in uses:
+            for w in wraps:
+                for order in (0, 1, 2):
+                    if order == 0:
+                        body = f'{d} {u}'
+                    elif order == 1:
+                        body = f'try {{ {u} }} catch (e) {{ print("E0", e.name) }} {d} {u}'
+                    else:
+                        body = f'function h() {{ {u} }} try {{ h() }} catch (e) {{ print("E0", e.name) }} {d} h();'
+                    if tier == 'quick' and order == 2 and wraps.index(w) % 3:
+                        continue
+                    progs.append('try { ' + w.replace('@', body) + ' } catch (e) { print("top", e.name) }')
+    return list(dict.fromkeys(progs))
